@@ -430,6 +430,9 @@ def run_history(sysm, history):
 def replay_doc(make_sys, doc):
     """generic replay of a BFS violation: twice (determinism), True iff the recorded check fails again"""
     outcomes = []
+    # a warm-up pass first: a defect that lives in process-wide state (a class-level dict, a module-level memo) was observed
+    # in a worker that had already examined other states; the warm-up gives the two recorded passes the same kind of past
+    run_history(make_sys(), doc["history"])
     for _ in range(2):
         sysm = make_sys()
         found, snap, model = run_history(sysm, doc["history"])
